@@ -20,7 +20,9 @@ LEVEL_NOTE = 'Trusted: Lean kernel; model tied by correspondence. Data races and
 def streams(rng, tier, seed):
     n = 60 if tier == "quick" else 1500
     gens = [lambda: ec.gen_flat(rng, sched=True), lambda: ec.gen_nested(rng, both=False), lambda: ec.gen_try(rng, "try"),
-            lambda: ec.gen_feedback(rng), lambda: ec.gen_fault(rng)]
+            lambda: ec.gen_feedback(rng), lambda: ec.gen_fault(rng),
+            # capturing nodes with different ErrorCaptureOptions built in one process (node-type caches keyed too coarsely)
+            lambda: ec.gen_try(rng, "errts"), lambda: ec.gen_sched_capture(rng)]
     progs = [gens[i % len(gens)]() for i in range(n)]
     cases = []
     for i, p in enumerate(progs):
@@ -30,7 +32,46 @@ def streams(rng, tier, seed):
         cases.append(Case(L, {"prog": p}))
     # the same cases again at the end of the process history (after all the other builds and runs)
     again = [Case(["case %d" % (10000 + i)] + c.lines[1:], c.meta) for i, c in enumerate(cases[: max(5, n // 4)])]
-    return [Stream("engine-repro", [ec.ENGINE], ec.model_cmd("Engine"), cases + again, timeout=900)] + gs.streams(rng, tier, seed)
+    # history INSIDE one case: 2-3 programs one after the other (separated by `reset`); the last one must behave as
+    # it does alone.  Half of the pairs are near-twins: the same program with one build-time option changed
+    # (ErrorCaptureOptions of a capturing node), the situation in which a cache keyed too coarsely shows.
+    nh = 50 if tier == "quick" else 1200
+    hist = []
+    for i in range(nh):
+        progs_i = []
+        if i % 2 == 0:
+            b = ec.gen_try(rng, "errts") if rng.random() < 0.6 else ec.gen_sched_capture(rng)
+            a = _option_twin(rng, b)
+            progs_i = [a, b]
+        else:
+            progs_i = [gens[rng.randrange(len(gens))]() for _ in range(rng.choice([2, 3]))]
+        L = ["case %d" % (20000 + i)]
+        for j, q in enumerate(progs_i):
+            L += (["reset"] if j else []) + q.lines(0)[1:]
+        hist.append(Case(L))
+    return [Stream("engine-repro", [ec.ENGINE], ec.model_cmd("Engine"), cases + again, timeout=900),
+            Stream("engine-history", [ec.ENGINE], ec.model_cmd("Engine"), hist, timeout=900)] + gs.streams(rng, tier, seed)
+
+
+def _option_twin(rng, p):
+    """a copy of program p in which the capture options of every errts/errtsv statement are changed (same depth where
+    possible, the capture_values flag flipped)"""
+    import copy
+    q = copy.deepcopy(p)
+    for st in q.root:
+        if st.kind == "errtsv":
+            st.args = [st.args[0], st.args[1], 1 - int(st.args[2])]
+        elif st.kind == "errts":
+            st.kind, st.args = "errtsv", [st.args[0], 1, 1]
+    return q
+
+
+def _first_diff(a, b):
+    xa, xb = a.split(" | "), b.split(" | ")
+    for x, y in zip(xa, xb):
+        if x != y:
+            return x[:80]
+    return (xa[len(xb)] if len(xa) > len(xb) else "<shorter>")[:80]
 
 
 def _run_line(case, out):
@@ -38,10 +79,53 @@ def _run_line(case, out):
     return out[idx] if idx < len(out) else ""
 
 
+def _fresh(lines):
+    import subprocess
+    r = subprocess.run([ec.ENGINE], input="\n".join(lines) + "\n", capture_output=True, text=True, timeout=120)
+    return r.returncode, [x for x in r.stdout.split("\n") if x != ""]
+
+
+def _monitor_history(case, out):
+    """the last program of the case, run alone in a fresh process, must give what it gave after its predecessors"""
+    segs = ec.split_segments(case.lines)
+    if len(segs) < 2 or not segs[-1]:
+        return []
+    last = segs[-1]
+    try:
+        rc, fresh = _fresh([case.lines[0]] + [l for _, l in last])
+    except Exception:
+        return []
+    if rc != 0 or len(fresh) != len(last) + 1:
+        return []
+    for (i, l), f in zip(last, fresh[1:]):
+        here = out[i] if i < len(out) else ""
+        if here != f:
+            return ["[repro] %r of the last program gives a different trace after the programs built and run before it in this "
+                    "process than alone in a fresh process: here %s ... fresh %s" % (l, _first_diff(here, f), _first_diff(f, here))]
+    return []
+
+
 def monitor(stream, case, out):
     if stream.startswith("gstate-"):
         return gs.monitor(stream, case, out)
+    if stream == "engine-history":
+        return _monitor_history(case, out)
     bad = []
+    # process-history differential: the same program alone in a FRESH process must give the same trace as it did
+    # here, after all the other builds and runs of this process (caches, registries, statics)
+    try:
+        import subprocess
+        r = subprocess.run([ec.ENGINE], input="\n".join(case.lines) + "\n", capture_output=True, text=True, timeout=120)
+        fresh = [x for x in r.stdout.split("\n") if x != ""]
+        here = [x for x in out if x != ""]
+        if r.returncode == 0 and len(fresh) == len(here):
+            for l, a, b in zip(case.lines, here, fresh):
+                if a != b and not l.startswith("runpar"):
+                    bad.append("[repro] %r gives a different trace after the other builds and runs of this process than alone "
+                               "in a fresh process: here %s ... fresh %s" % (l, _first_diff(a, b), _first_diff(b, a)))
+                    break
+    except Exception:
+        pass
     for l, o in zip(case.lines, out):
         if l.startswith("rerun") and o.startswith("reuse-diff"):
             bad.append("[repro] a further executor made from the same builder produced a different trace: %s" % o[:200])
@@ -53,6 +137,12 @@ def monitor(stream, case, out):
 def features(stream, case, out):
     if stream.startswith("gstate-"):
         return gs.features(stream, case, out)
+    if stream == "engine-history":
+        segs = ec.split_segments(case.lines)
+        f = ["history:%d-programs" % len(segs)]
+        if any("errtsv" in l for l in case.lines):
+            f.append("capture-option-twins")
+        return f
     f = ep.features(stream, case, [_run_line(case, out)])
     for l in case.lines:
         if l.startswith("rerun") or l.startswith("runpar"):
@@ -65,6 +155,8 @@ def features(stream, case, out):
 def nontrivial(stream, case, out):
     if stream.startswith("gstate-"):
         return gs.nontrivial(stream, case, out)
+    if stream == "engine-history":
+        return sum(1 for l in case.lines if l == "run") >= 2
     return ep.nontrivial(stream, case, [_run_line(case, out)])
 
 
@@ -72,4 +164,6 @@ def valid_case(stream, case, impl_out, model_out):
     if stream.startswith("gstate-"):
         f = getattr(gs, "valid_case", None)
         return f(stream, case, impl_out, model_out) if f else True
+    if stream == "engine-history":
+        return ep.valid_case(stream, case, impl_out, model_out) and sum(1 for l in case.lines if l == "run") >= 2
     return ep.valid_case(stream, case, impl_out, model_out)
